@@ -105,6 +105,31 @@ def observables(uniform):
     O["normalized_hypergraph_laplacian"] = lambda H: _mat(xgi.normalized_hypergraph_laplacian(H, index=True))
     O["normalized_hypergraph_laplacian(weighted)"] = lambda H: _mat(xgi.normalized_hypergraph_laplacian(H, weighted=True, sparse=False, index=True))
     O["degree(weight)"] = lambda H: {N(n): v for n, v in H.nodes.degree(weight="weight").asdict().items()}
+    # every order-free reduction of the per-ID statistics (ties included: a tie must not be broken by insertion order)
+    stats = {"nodes.degree": lambda H: H.nodes.degree, "edges.size": lambda H: H.edges.size,
+             "edges.order": lambda H: H.edges.order, "nodes.degree(order=2)": lambda H: H.nodes.degree(order=2),
+             "nodes.average_neighbor_degree": lambda H: H.nodes.average_neighbor_degree,
+             "nodes.clustering_coefficient": lambda H: H.nodes.clustering_coefficient,
+             "nodes.local_clustering_coefficient": lambda H: H.nodes.local_clustering_coefficient,
+             "nodes.two_node_clustering_coefficient": lambda H: H.nodes.two_node_clustering_coefficient}
+    reductions = {"max": lambda s: s.max(), "min": lambda s: s.min(), "sum": lambda s: s.sum(), "mean": lambda s: s.mean(),
+                  "median": lambda s: s.median(), "mode": lambda s: s.mode(), "std": lambda s: s.std(), "var": lambda s: s.var(),
+                  "moment(2)": lambda s: s.moment(2), "moment(3,center)": lambda s: s.moment(3, center=True),
+                  "unique+counts": lambda s: [list(map(float, x)) for x in s.unique(return_counts=True)],
+                  "ashist(3)": lambda s: [[float(y) for y in row] for row in s.ashist(bins=3).to_numpy()]}
+    integer_valued = {"nodes.degree", "edges.size", "edges.order", "nodes.degree(order=2)"}
+    for sn, sf in stats.items():
+        for rn, rf in reductions.items():
+            # grouping equal values (mode, unique, histogram bins) is only order-free in exact arithmetic: the float-valued
+            # statistics differ in the last bit between summation orders, so those reductions are asked of integer statistics only
+            if rn in ("mode", "unique+counts", "ashist(3)") and sn not in integer_valued:
+                continue
+            O[f"{sn}.{rn}"] = lambda H, sf=sf, rf=rf: rf(sf(H))
+    for val, mode in ((1, "eq"), (1, "gt"), (2, "leq"), (2, "neq")):
+        O[f"nodes.filterby(degree,{val},{mode})"] = lambda H, val=val, mode=mode: {N(n) for n in H.nodes.filterby("degree", val, mode)}
+        O[f"edges.filterby(size,{val + 1},{mode})"] = lambda H, val=val, mode=mode: {E(e) for e in H.edges.filterby("size", val + 1, mode)}
+    O["nodes.multi.max"] = lambda H: [float(x) for x in np.asarray(H.nodes.multi(["degree", "clustering_coefficient"]).asnumpy()).max(axis=0)] \
+        if H.num_nodes else None
     O["to_line_graph"] = lambda H: _graph(xgi.to_line_graph(H), "e")
     O["to_graph"] = lambda H: _graph(xgi.to_graph(H), "n")
     return O
